@@ -147,6 +147,16 @@ CHECKS = {
             "max/min primal/dual inside a certified bracket, primal = dual, max >= min, product consistency, cos^2(pi/8) / sin^2(pi/8) / perfect hedging; optimal_clone on all 1..4 "
             "subsets of 8 (thorough 10) qubit kets + six-state ensemble x priors x input forms x reps 1..2 inside the bracket, closed forms 1, 3/4, 2/3.",
             "no independent NPA reference; hedging and cloning qubit-only (as the code); reps <= 2; SCS tolerance 1e-3"),
+    "C12": ("model_checking",
+            "explicit-state exploration of call histories over the real functions + exhaustive enumeration of catalogue sub-ensembles vs certified PPT bracket",
+            "Call histories of depth 2 (thorough 3) over {hierarchy level 1, level 2, ppt primal, ppt dual} are explored on the real functions with the same caller-owned "
+            "argument objects: the digest (bytes, shape, dtype) of every element of `states` and `probs` never changes and every value equals the value from the initial "
+            "state. Values: all subsets of size 2..3 (thorough 4) of a 12-ket catalogue per system (2x2, 2x3, 3x2: maximally entangled, product, partially entangled, "
+            "seed-derived complex kets) plus mixed states x priors x party x form: ppt value inside a certified PPT bracket [L,U] (own primal/dual points repaired to exact "
+            "feasibility and verified by eigvalsh), >= explicit LOCC measurements, <= certified global optimum, primal = dual, returned operators a PPT POVM attaining the "
+            "value, invariance under local unitaries and party choice, hierarchy level 1 = PPT value, level 2 <= level 1 and >= separable value, closed forms 1/2 and 7/8.",
+            "PPT = separable on 2x2 / 2x3 makes the bracket two-sided for level 2; CVXOPT breakdowns of the primal program (picos issue 341, >1 CPU-s guard) are counted "
+            "as indeterminate; level >= 3 and 3x3 out of bounds"),
 }
 
 PENDING_REASON = "check not built yet in this session (work in progress; see DESIGN.md section 7 for the planned exploration)"
